@@ -120,7 +120,12 @@ class OrderedDictSlicer(DictSlicer):
     slices = dict
     def sliceBody(self, streamable, banana):
         keys = list(self.obj.keys())
-        keys.sort()
+        try:
+            keys.sort()
+        except TypeError:
+            # keys of mixed types (e.g. int and str) cannot be ordered on
+            # python3: send them in the dict's own order
+            pass
         for key in keys:
             value = self.obj[key]
             yield key
